@@ -158,7 +158,10 @@ def expected(ym, k):
         data = [a + b for a, b in zip(data, ym.avg(lu, mult))]
         uops += list(lu)
     if stores:
-        rows = [r for r in ym.d.get("store_throughput", []) if mem_ok(r, stores[0]) and r.get("src") is not None and r.get("src") == rtype]
+        # the statement: store micro-ops "for its addressing mode and register type": a row typed for this register type, else a
+        # row for the addressing mode that holds for every register type (no src), else the default
+        shape = [r for r in ym.d.get("store_throughput", []) if mem_ok(r, stores[0])]
+        rows = [r for r in shape if r.get("src") is not None and r.get("src") == rtype] or [r for r in shape if r.get("src") is None]
         su = rows[0]["port_pressure"] if rows else ym.d["store_throughput_default"]
         if isa == "aarch64" and not [o for o in so["destination"] if isinstance(o, MemoryOperand)] and all(o.post_indexed or o.pre_indexed for o in so["src_dst"] if isinstance(o, MemoryOperand)):
             su = []
@@ -206,7 +209,9 @@ for isa, archs in MODELS.items():
                     ArchSemantics(mm).add_semantics([k]) if rnd_ == 2 else sem.add_semantics([k])
                 except Exception as e:
                     R.case((arch, line), sample=desc)
-                    R.fail("C08/compose/crash", f"C08:crash:{arch}:{line}", f"{arch} {line!r}: analysis raised {e!r}", desc)
+                    # (the snb divider port 'DIV' is the recorded C15 data finding; any other crash is reported under its own key)
+                    key = "compose:snb:port-DIV" if (arch == "snb" and "Port 'DIV' not in port list" in repr(e)) else f"C08:crash:{arch}:{line}"
+                    R.fail("C08/compose/crash", key, f"{arch} {line!r}: analysis raised {e!r}", desc)
                     continue
                 got = dict(uops=norm_uops(k.port_uops), pressure=list(k.port_pressure), tp=k.throughput, lat=k.latency, lwl=k.latency_wo_load,
                            unk=("tp_unknown" in k.flags, "lt_unknown" in k.flags))
